@@ -120,7 +120,7 @@ func checkOne(t schema.Type, spec yangval.Spec, v string) []engine.Violation {
 		err = t.Validate(valCtx{}, path, v)
 	}()
 	mk := func(key, detail string) []engine.Violation {
-		return []engine.Violation{{Key: key, Witness: fmt.Sprintf("%s value %q", spec.Yang(), v), Detail: detail, Harness: "val", Replay: engine.JSON(rec{spec, strconv.Quote(v)})}}
+		return []engine.Violation{{Key: key, Witness: fmt.Sprintf("%s value %q", spec.Yang(), v), Detail: detail, Harness: "val", Replay: engine.JSON(rec{Spec: spec, Value: strconv.Quote(v)})}}
 	}
 	switch {
 	case p != nil:
@@ -299,7 +299,7 @@ func run(c *engine.Ctx) {
 		}
 		t, msg := typeOf(spec)
 		if t == nil {
-			c.Report(engine.Violation{Key: "type-does-not-compile:" + kindKey(spec), Witness: spec.Yang(), Detail: msg, Harness: "val", Replay: engine.JSON(rec{spec, strconv.Quote("")})})
+			c.Report(engine.Violation{Key: "type-does-not-compile:" + kindKey(spec), Witness: spec.Yang(), Detail: msg, Harness: "val", Replay: engine.JSON(rec{Spec: spec, Value: strconv.Quote("")})})
 			continue
 		}
 		c.Add("types", 1)
